@@ -121,6 +121,10 @@ pub struct World {
     pub auto_publish: usize,
     pub regime: String,
     pub drained: bool,
+    /// Republish answered BadSubscriptionIdInvalid for a subscription the client believes alive:
+    /// (subscription index, sequence number). Judged after the drain, when a status change that
+    /// explains it would have been delivered.
+    pub republish_suspects: Vec<(usize, u32)>,
     /// per variable: (tick index at which a sample is taken, value x1000, status bits, written since previous tick)
     pub publish_send_times: Vec<u64>,
     pub capacity_shrunk: bool,
@@ -212,6 +216,7 @@ impl World {
             auto_publish: u(plan, "auto_publish", 0) as usize,
             regime: plan["regime"].as_str().unwrap_or("").to_string(),
             drained: false,
+            republish_suspects: Vec::new(),
             publish_send_times: Vec::new(),
             capacity_shrunk: false,
             idle_conn,
@@ -1330,9 +1335,11 @@ impl World {
                 let acked_in_flight = self.outstanding.iter().any(|o| o.acks.iter().any(|a| a.0 == sub.id && a.1 == seq));
                 // the subscription may have expired already without the client knowing yet (the status
                 // change is only delivered with the next publish response)
-                let may_have_expired = st == StatusCode::BadSubscriptionIdInvalid && self.now_ms() - sub.last_lifetime_reset_ms + 2 * TICK_MS >= (sub.lt as u64).saturating_sub(1) * (sub.pi_ms as u64);
+                // ... so a vanished subscription is judged after the drain
+                let may_have_expired = st == StatusCode::BadSubscriptionIdInvalid && sub.alive;
                 if may_have_expired {
                     ctx.probe("republish_on_possibly_expired_subscription");
+                    self.republish_suspects.push((k, seq));
                 }
                 if !may_have_expired && which != "unknown" && which != "acked" && sub.alive && sub.sent.contains_key(&seq) && !sub.acked_good.contains(&seq) && !acked_in_flight && !sub.evictable.contains(&seq) {
                     ctx.violate(
@@ -1489,6 +1496,12 @@ impl World {
             self.auto_publish = saved;
         }
         self.drained = true;
+        for (k, seq) in std::mem::take(&mut self.republish_suspects) {
+            let sub = &self.subs[k];
+            if sub.status_change_at_ms.is_none() && !self.dead {
+                ctx.violate("C40", "republish-unavailable", "BadSubscriptionIdInvalid", format!("Republish of retained message {} answered BadSubscriptionIdInvalid for subscription {}, which never reported a status change (it was not closed or expired)", seq, sub.id));
+            }
+        }
         self.check_keepalive_silence(ctx);
         self.check_completeness(ctx);
         if self.regime == "c25" {
